@@ -148,12 +148,13 @@ Selected(list) ==
   ELSE IF \A i \in 1..Len(list) : list[i][1] = "!" THEN Countries \ {list[i][2] : i \in 1..Len(list)}
   ELSE {list[i][2] : i \in {j \in 1..Len(list) : list[j][1] = "+"}} \cap Countries     \* a code that is not in the table selects nothing
 
-\* fed = sum pop * min(1, ratio), as the rational <<numerator, denominator>> over a common denominator 2
+\* fed = sum pop * min(1, ratio), counted in units of 1 / Den
+Den == 200     \* fed is counted in units of 1/200 of a person: min(1, ratio) is exact for every ratio of the grid
 RECURSIVE FedTwice(_, _)
 FedTwice(S, ratio) == IF S = {} THEN 0
                       ELSE LET c == CHOOSE x \in S : TRUE
                                r == ratio[c]
-                               capped2 == IF r[1] >= r[2] THEN 2 ELSE (2 * r[1]) \div r[2]      \* ratios are multiples of 1/2
+                               capped2 == IF r[1] >= r[2] THEN Den ELSE (Den * r[1]) \div r[2]  \* ratios are multiples of 1/Den
                            IN Pop[c] * capped2 + FedTwice(S \ {c}, ratio)
 RECURSIVE Tot(_)
 Tot(S) == IF S = {} THEN 0 ELSE LET c == CHOOSE x \in S : TRUE IN Pop[c] + Tot(S \ {c})
@@ -163,6 +164,6 @@ Entries == {<<"+", c>> : c \in Countries \cup {Unknown}} \cup {<<"!", c>> : c \i
 Lists == {<<>>} \cup {<<a>> : a \in Entries} \cup {<<a, b>> : a \in Entries, b \in Entries}
 CONSTANT RatioAssignments   \* the ratio functions Countries -> RatioGrid to enumerate
 AggregateCases == {[list |-> l, ratio |-> rt] : l \in Lists, rt \in RatioAssignments}
-Within01(l, rt) == LET S == Selected(l) IN 0 <= FedTwice(S, rt) /\ FedTwice(S, rt) <= 2 * Tot(S)
+Within01(l, rt) == LET S == Selected(l) IN 0 <= FedTwice(S, rt) /\ FedTwice(S, rt) <= Den * Tot(S)
 AggregateSane == \A x \in AggregateCases : Within01(x.list, x.ratio)
 =============================================================================
